@@ -15,7 +15,7 @@ def _gen(rng):
     return {'self': {'k': 'call', 'fn': 'spec.layout_gen:build_unnormalized_namespace', 'args': [rng.randrange(10 ** 6)]}}
 
 
-@contract('stone.ir.api:ApiNamespace.normalize', properties=['C11', 'C02'])
+@contract('stone.ir.api:ApiNamespace.normalize', properties=['C11', 'C12', 'C02'])
 class normalize:
     """routes by their own order (name, version); data types, aliases, annotations and annotation types by name;
     each listing keeps exactly its elements"""
